@@ -8,6 +8,8 @@
 mod buf;
 mod emf;
 mod json_string;
+#[cfg(kani)]
+mod kani_hashbrown;
 mod rate_limit;
 
 pub use emf::{
